@@ -22,7 +22,7 @@ def pick(cases, thorough, seed):
     rng = random.Random(seed)
     groups = {}
     for c in cases:
-        groups.setdefault((tuple(c["prog"]["params"]), c["prog"]["deps"], c["prog"].get("hyg", False)), []).append(c)
+        groups.setdefault((tuple(c["prog"]["params"]), c["prog"]["deps"], c["prog"].get("hyg", False), c["prog"].get("hygtr", False)), []).append(c)
     out = []
     for k in sorted(groups):
         g = groups[k]
